@@ -322,6 +322,35 @@ impl<T> RawTable<T> {
         }
     }
 
+    pub fn get(&self, hash: u64, eq: impl FnMut(&T) -> bool) -> Option<&T> {
+        match self.find(hash, eq) {
+            Some(bucket) => Some(unsafe { bucket.as_ref() }),
+            None => None,
+        }
+    }
+    pub fn get_mut(&mut self, hash: u64, eq: impl FnMut(&T) -> bool) -> Option<&mut T> {
+        match self.find(hash, eq) {
+            Some(bucket) => Some(unsafe { bucket.as_mut() }),
+            None => None,
+        }
+    }
+    pub fn remove_entry(&mut self, hash: u64, eq: impl FnMut(&T) -> bool) -> Option<T> {
+        match self.find(hash, eq) {
+            Some(bucket) => Some(unsafe { self.remove(bucket).0 }),
+            None => None,
+        }
+    }
+    pub fn erase_entry(&mut self, hash: u64, eq: impl FnMut(&T) -> bool) -> bool {
+        if let Some(bucket) = self.find(hash, eq) {
+            unsafe { self.erase(bucket) };
+            true
+        } else {
+            false
+        }
+    }
+    pub fn insert_entry(&mut self, hash: u64, value: T, hasher: impl Fn(&T) -> u64) -> &mut T {
+        unsafe { self.insert(hash, value, hasher).as_mut() }
+    }
     pub fn capacity(&self) -> usize {
         self.items + self.growth_left
     }
@@ -438,6 +467,14 @@ impl<T> RawIter<T> {
         assert!(b.cell.as_ptr() == self.cell.as_ptr(), "[ghost] reflect_remove: bucket is not in the iterator's table");
         assert!(self.items > 0, "[ghost] reflect_remove: iterator item count underflows");
         self.items -= 1;
+    }
+    /// whether the real iterator takes notice of the insert depends on the bucket's position
+    /// relative to the cursor, which this mode does not represent
+    pub unsafe fn reflect_insert(&mut self, b: &Bucket<T>) {
+        assert!(b.cell.as_ptr() == self.cell.as_ptr(), "[ghost] reflect_insert: bucket is not in the iterator's table");
+        if nondet_bool() {
+            self.items += 1;
+        }
     }
 }
 impl<T> Iterator for RawIter<T> {
